@@ -12,7 +12,7 @@ def run(cmd, cwd, env=None, timeout=1200):
 def main():
     prop, k = sys.argv[1], sys.argv[2]
     src = sys.argv[3] if len(sys.argv) > 3 else "/tmp/wt/%s/mutants/%s" % (prop, k)
-    sid = "%s-m%s" % (prop, k)
+    sid = "%s-%s%s" % (prop, os.environ.get("SEED_TAG", "m"), k)
     wt = tempfile.mkdtemp(prefix="seedwt-")
     os.rmdir(wt)
     rec = {"id": sid, "property": prop, "source": "independent sub-agent given only the property text", "ran": []}
@@ -21,7 +21,7 @@ def main():
         assert rc == 0, out
         demo = os.path.join(src, "demo.py")
         # demos written against /tmp/wt/<prop>: run a copy with the path rewritten to the scratch worktree
-        d = open(demo).read().replace("/tmp/wt/%s" % prop, wt)
+        d = open(demo).read().replace("/tmp/wt2/%s" % prop, wt).replace("/tmp/wt/%s" % prop, wt)
         os.makedirs(os.path.join(wt, "mutants", k), exist_ok=True)
         dpath = os.path.join(wt, "mutants", k, "demo.py")
         open(dpath, "w").write(d)
